@@ -201,7 +201,7 @@ def run(ctx):
     # "only ever touches the lease row of the address it assigns": what else a write can delete is the schema's business (C01)
     ctx.include("C01", rules=("R7", "R1"))
     # "requests matching no configured pool yield no reply": whether a pool-carrying policy applies at all is the policy walk's (C11)
-    ctx.include("C11", rules=("anchor", "R2", "R3"))
+    ctx.include("C11", rules=("anchor", "R2", "R3", "R6"))
     P = ctx.P
     cg = callgraph(P)
     M = PoolModel(P, cg)
